@@ -1,6 +1,6 @@
 (* Proofs/EncodingFacts.v — facts about Model/Encoding.v (C08) *)
 From Coq Require Import List NArith Bool Arith Lia.
-From CssV Require Import Base.Regex Base.Chars Base.Tokens Gen.GenLex Gen.GenEnc Model.Tokenizer Model.Encoding.
+From CssV Require Import Base.Regex Base.Chars Base.Tokens Gen.GenLex Gen.GenEncoding Model.Tokenizer Model.Encoding.
 Import ListNotations.
 Local Open Scope N_scope.
 
@@ -616,6 +616,28 @@ Proof.
   intros Hs. unfold unicodesub, resub. apply resub_escapecss; [exact Hs | lia | lia].
 Qed.
 
+(* strings: the same pass with the escaped-newline removal (repl_string) *)
+Lemma repl_string_escape c : c <= maxunicode -> repl_string (92 :: hex_upper c ++ [32]) = [c].
+Proof.
+  intros Hc. pose proof (repl_escape_escape c Hc) as H. unfold repl_string. cbn [tl].
+  destruct (hex_upper_spec c Hc) as (_ & Hh & Hl).
+  destruct (hex_upper c) as [|d h] eqn:E; [cbn in Hl; lia|]. cbn [app].
+  assert (Hd : is_hex d = true) by (now inversion Hh).
+  assert (Hn : (d =? 10) || (d =? 13) || (d =? 12) = false).
+  { unfold is_hex in Hd.
+    destruct (d =? 10) eqn:E1; [apply N.eqb_eq in E1; subst; discriminate|].
+    destruct (d =? 13) eqn:E2; [apply N.eqb_eq in E2; subst; discriminate|].
+    destruct (d =? 12) eqn:E3; [apply N.eqb_eq in E3; subst; discriminate|]. reflexivity. }
+  rewrite Hn. cbn [app] in H. exact H.
+Qed.
+
+Lemma escapecss_unicodesub_string s :
+  Forall plain s -> unicodesub_string (escapecss encodable s) = s.
+Proof.
+  intros Hs. unfold unicodesub_string, resub.
+  apply (resub_escapecss_gen repl_string repl_string_escape); [exact Hs | lia | lia].
+Qed.
+
 (* nothing non-encodable is left in the output: encode() cannot fail on it *)
 Lemma hex_upper_ascii c : Forall (fun d => d < 128) (hex_go 6 c []).
 Proof.
@@ -709,67 +731,6 @@ Lemma escaped_char_lost :
   exists s, unicodesub (escapecss (below 128) s) <> unicodesub s.
 Proof. exists [92; 228]. vm_compute. discriminate. Qed.
 
-(* ---- strings: cleanstring (backslash-newline removal) leaves the escaped text alone ---- *)
-Definition clean_shape : re :=
-  Cat (Chr [(92, 92)]) (Alt (Cat (Chr [(13, 13)]) (Chr [(10, 10)])) (Chr [(10, 10); (12, 13)])).
-Lemma clean_is_shape : cleanstring_re = clean_shape.
-Proof. reflexivity. Qed.
-
-Definition not_nl (t : str) : Prop :=
-  match t with d :: _ => d <> 10 /\ d <> 12 /\ d <> 13 | [] => True end.
-Fixpoint okc (t : str) : Prop :=
-  match t with
-  | [] => True
-  | c :: r => (c <> 92 \/ not_nl r) /\ okc r
-  end.
-
-Lemma clean_nomatch F c t : c <> 92 \/ not_nl t -> pm F cleanstring_re (c :: t) = None.
-Proof.
-  intros H. unfold pm, rest_match. rewrite clean_is_shape. unfold clean_shape. cbn [m cls_mem].
-  destruct (N.leb_spec 92 c), (N.leb_spec c 92); cbn [andb orb]; try reflexivity.
-  assert (c = 92) by lia. subst c. destruct H as [H|H]; [contradiction|].
-  destruct t as [|d t]; [reflexivity|]. cbn in H. destruct H as (Hn1 & Hn2 & Hn3).
-  destruct (N.leb_spec 13 d), (N.leb_spec d 13), (N.leb_spec 10 d), (N.leb_spec d 10), (N.leb_spec 12 d);
-    cbn [andb orb]; try reflexivity; lia.
-Qed.
-
-Lemma resub_clean_id f : forall t fuel F, okc t -> resub_go fuel F cleanstring_re f t = t.
-Proof.
-  induction t as [|c t IH]; intros fuel F Hok; destruct fuel as [|fu]; try reflexivity.
-  cbn [okc] in Hok. destruct Hok as [H1 H2].
-  cbn [resub_go]. rewrite clean_nomatch by exact H1. f_equal. apply IH, H2.
-Qed.
-
-Lemma okc_app p r : Forall (fun d => d <> 92) p -> okc r -> okc (p ++ r).
-Proof.
-  induction 1 as [|d p Hd Hp IH]; intros Hr; cbn [app okc]; [exact Hr|].
-  split; [left; exact Hd | apply IH, Hr].
-Qed.
-
-Lemma is_hex_facts d : is_hex d = true -> d <> 92 /\ d <> 10 /\ d <> 12 /\ d <> 13.
-Proof.
-  unfold is_hex. intros H.
-  repeat split; intros ->; vm_compute in H; discriminate.
-Qed.
-
-Lemma escapecss_okc encodable s : Forall plain s -> okc (escapecss encodable s).
-Proof.
-  induction 1 as [|a s [Ha1 Ha2] Hs IH]; [exact I|].
-  unfold escapecss in *. cbn [flat_map]. unfold escape_char at 1. destruct (encodable a).
-  - cbn [app okc]. split; [left; exact Ha1 | exact IH].
-  - destruct (hex_upper_spec a Ha2) as (Hn & Hh & Hl).
-    cbn [app]. rewrite <- app_assoc. cbn [app okc]. split.
-    + right. destruct (hex_upper a) as [|d h]; [cbn in Hl; lia|]. cbn.
-      destruct (is_hex_facts d (Forall_inv Hh)) as (_ & H1 & H2 & H3). auto.
-    + apply okc_app.
-      * eapply Forall_impl; [|exact Hh]. intros d Hd. apply (is_hex_facts d Hd).
-      * cbn [okc]. split; [left; discriminate | exact IH].
-Qed.
-
-Lemma escapecss_cleanstring encodable s :
-  Forall plain s -> cleanstring (escapecss encodable s) = escapecss encodable s.
-Proof. intros Hs. unfold cleanstring, resub. apply resub_clean_id, escapecss_okc, Hs. Qed.
-
 (* token values in every escape-decoded kind, strings included *)
 Lemma classify_escaped_all encodable name s ctx :
   kind_in name decoding_kinds = true -> Forall plain s ->
@@ -777,6 +738,6 @@ Lemma classify_escaped_all encodable name s ctx :
 Proof.
   intros Hd Hs. unfold classify. rewrite Hd.
   destruct (kind_in name cleaning_kinds).
-  - rewrite escapecss_cleanstring, escapecss_unicodesub by exact Hs. reflexivity.
+  - rewrite escapecss_unicodesub_string by exact Hs. reflexivity.
   - rewrite escapecss_unicodesub by exact Hs. reflexivity.
 Qed.
